@@ -179,6 +179,29 @@ class Snapshot:
             self.paths[p] = (id(a), memo[id(a)])
         self._keep = list(bufs.values())  # keep ids alive
 
+    def owners_changed_since(self, before: "Snapshot", pool, inputs):
+        """pool objects owning a changed buffer: for each changed array the lowest pool index from which
+        it is reachable (a caller-owned input that is itself a pool object counts as that object)."""
+        bad_ids = set()
+        for p, (i, f) in before.paths.items():
+            cur = self.paths.get(p)
+            if cur is not None and cur[0] == i and cur[1] != f:
+                bad_ids.add(i)
+        toks = set()
+        for k, f in before.inputs.items():
+            if k in self.inputs and self.inputs[k] != f:
+                arr = inputs[k]
+                idx = [j for j, o in enumerate(pool) if o is arr]
+                if idx:
+                    bad_ids.add(id(arr))
+                else:
+                    toks.add(f"input:{k}")
+        for bid in bad_ids:
+            owners = [int(p[3:].split(".")[0].split("[")[0]) for p, (i, _) in self.paths.items() if i == bid]
+            if owners:
+                toks.add(f"obj{min(owners)}")
+        return sorted(toks)
+
     def changed_since(self, before: "Snapshot"):
         ch = []
         for k, f in before.inputs.items():
@@ -396,7 +419,7 @@ def build_graph(b, upto=None) -> Graph:
         if done():
             raise StopBuild
         inv_idx = len(g.pool) - 1
-        g.stage("FitImaging", [9, inv_idx], lambda: fit_cls(
+        g.stage("FitInversion", [9, inv_idx], lambda: fit_cls(
             dataset=ds, model_data=None, inversion=inv, use_mask_in_fit=b.get("use_mask_in_fit", False)))
         if done():
             raise StopBuild
@@ -405,6 +428,7 @@ def build_graph(b, upto=None) -> Graph:
             pm = np.array([c == "1" for c in mv["pixel_mask"]], dtype=bool) if mv.get("pixel_mask") else None
             if pm is not None:
                 g.add_input("mesh_pixel_mask", pm)
+            mv_kind = mv_kind_of(mv)
             if mv["values"] == "reconstruction":
                 def mk_mv():
                     # the usual use: the valued mapper is handed the inversion's (cached) reconstruction
@@ -416,17 +440,26 @@ def build_graph(b, upto=None) -> Graph:
                         rec = rec[: mappers[0].params]
                     return aa.MapperValued(mapper=mappers[0], values=rec, mesh_pixel_mask=pm)
 
-                g.stage("MapperValued", [mapper_idx[0], inv_idx], mk_mv)
+                g.stage(mv_kind, [mapper_idx[0], inv_idx], mk_mv)
             else:
                 vals = g.add_input("mv_values", _arr(mv["values"], None))
                 g.stage("Buffer", [], lambda: vals)
                 if done():
                     raise StopBuild
-                g.stage("MapperValued", [mapper_idx[0], len(g.pool) - 1], lambda: aa.MapperValued(
+                g.stage(mv_kind, [mapper_idx[0], len(g.pool) - 1], lambda: aa.MapperValued(
                     mapper=mappers[0], values=vals, mesh_pixel_mask=pm))
     except StopBuild:
         pass
     return g
+
+
+def mv_kind_of(mv):
+    """effects-table kind of a valued mapper: without a mesh_pixel_mask every operation is pure; with one,
+    `values_masked` (and everything built on it) writes into the values it was given — a caller-owned
+    buffer or the inversion's cached reconstruction (known finding D9b)."""
+    if not mv.get("pixel_mask"):
+        return "MapperValued"
+    return "MapperValuedMaskedRec" if mv["values"] == "reconstruction" else "MapperValuedMaskedBuf"
 
 
 _FIT = None
@@ -811,6 +844,7 @@ def run_history(case):
                 terms.append((terms[o][0], terms[o][1] + [st["g"]]))
         after = Snapshot(g.inputs, g.pool)
         out["changed"] = after.changed_since(snap)
+        out["owners"] = after.owners_changed_since(snap, g.pool, g.inputs)
         snap = after
         steps_out.append(out)
     meta = {"kinds": g.kinds[: g.n_roots], "parents": g.parents[: g.n_roots],
@@ -935,7 +969,7 @@ def struct_build(rng, struct, m, form=None, store_native=None, uniform=None):
     return b
 
 
-def dataset_build(rng, m, inversion=False):
+def dataset_build(rng, m, inversion=False, d9b=False):
     h, w = len(m), len(m[0])
     n_un = sum(1 for r in m for v in r if not v)
     kh, kw = rng.choice([(1, 1), (3, 3), (1, 3), (3, 1), (3, 3)])
@@ -976,15 +1010,24 @@ def dataset_build(rng, m, inversion=False):
             npix = mappers[0]["shape"][0] * mappers[0]["shape"][1]
         else:
             npix = len(mappers[0]["points"])
-        r = rng.random()
         pm = "".join(rng.choice("01") for _ in range(npix))
         if "1" not in pm:
             pm = "1" + pm[1:]
-        if r < 0.45:
-            b["valued"] = {"values": "reconstruction", "pixel_mask": pm if rng.random() < 0.8 else None}
-        elif r < 0.9:
-            b["valued"] = {"values": [q(_dy(rng, 0, 8)) for _ in range(npix)],
-                           "pixel_mask": pm if rng.random() < 0.8 else None}
+        vals = [_dy(rng, 0, 8) + Fraction(1, 4) for _ in range(npix)]
+        if d9b:
+            # known finding D9b is visible: values given to the valued mapper are non-zero under the pixel mask
+            b["valued"] = ({"values": "reconstruction", "pixel_mask": pm} if rng.random() < 0.5 else
+                           {"values": [q(v) for v in vals], "pixel_mask": pm})
+        else:
+            r = rng.random()
+            if r < 0.25:
+                b["valued"] = {"values": "reconstruction", "pixel_mask": None}
+            elif r < 0.45:
+                b["valued"] = {"values": [q(v) for v in vals], "pixel_mask": None}
+            elif r < 0.9:
+                # values already zero under the pixel mask: masking them is the identity, so the in-place write
+                # of `values_masked` (D9b) changes nothing and every other effect stays fully checked
+                b["valued"] = {"values": [q(0 if c == "1" else v) for v, c in zip(vals, pm)], "pixel_mask": pm}
     return b
 
 
@@ -1102,12 +1145,12 @@ def root_kinds(b):
     ks += ["OverSampler", "Grid2DIrregular"]
     for _ in b["mappers"]:
         ks += ["Mesh", "Mapper"]
-    ks += ["Inversion", "FitImaging"]
+    ks += ["Inversion", "FitInversion"]
     mv = b.get("valued")
     if mv:
         if mv["values"] != "reconstruction":
             ks.append("Buffer")
-        ks.append("MapperValued")
+        ks.append(mv_kind_of(mv))
     return ks
 
 
@@ -1190,6 +1233,17 @@ class C11(PropertyCheck):
             hist = random_history(rng, ks, rng.randint(4, maxsteps), alpha, focus=9)
             yield {"tag": f"hist_inversion_{'wt' if b['w_tilde'] else 'map'}_{len(b['mappers'])}", "kind": "history",
                    "build": b, "history": hist}
+        # 5b. a few histories in which known finding D9b is visible (kept few: each is shrunk and replayed)
+        n = 3 if quick else 12
+        for i in range(n):
+            m, mk = _mask_for_dataset(rng)
+            b = dataset_build(rng, m, inversion=True, d9b=True)
+            ks = root_kinds(b)
+            hist = random_history(rng, ks, rng.randint(4, 10), alpha, focus=len(ks) - 4)
+            mvi = len(ks) - 1
+            hist.insert(rng.randint(0, len(hist)), {"op": "read", "obj": mvi, "key": "values_masked"})
+            hist.append({"op": "read", "obj": mvi, "key": "values"})
+            yield {"tag": "hist_valued_d9b", "kind": "history", "build": b, "history": hist}
         # 6. seeded simulation under perturbed global RNG states
         n = 25 if quick else 200
         for i in range(n):
@@ -1321,8 +1375,14 @@ class C11(PropertyCheck):
             raise Skip("implementation did not build the graph")
         hist = []
         kinds = list(meta["kinds"])
+        stage_at = []
         for i, (k, ps) in enumerate(zip(meta["kinds"], meta["parents"])):
+            if k == "MapperValuedMaskedRec" or (k == "MapperValued" and len(ps) == 2 and meta["kinds"][ps[1]] == "Inversion"):
+                # the builder hands the valued mapper `inversion.reconstruction`: a read, which caches it
+                hist.append({"op": "read", "obj": ps[1], "key": "Inversion.reconstruction"})
+            stage_at.append(len(hist))
             hist.append({"op": "construct", "kind": k, "root": i, "parents": ps})
+        n_prefix = len(hist)
         for st in case["history"]:
             o = st["obj"]
             kind = kinds[o] if o < len(kinds) else "?"
@@ -1333,7 +1393,8 @@ class C11(PropertyCheck):
             else:
                 hist.append({"op": "derive", "obj": o, "cls": deriv_class(kind, st["g"]), "g": st["g"]})
                 kinds.append(result_kind(kind, st["g"]) if kind in effects()["kinds"] else "?")
-        return [{"op": "c11.cache_machine", "effects": self._table_for(kinds), "history": hist}]
+        return [{"op": "c11.cache_machine", "effects": self._table_for(kinds), "history": hist,
+                 "tag": {"n_prefix": n_prefix, "stage_at": stage_at}}]
 
     def model_obs(self, case, responses):
         r = responses[0]
@@ -1342,13 +1403,13 @@ class C11(PropertyCheck):
         if case["kind"] == "rng":
             return {"labels": _labels(r["ok"]["outputs"]), "changed": []}
         steps = r["ok"]["steps"]
-        n_roots = len(steps) - len(case["history"])
-        ctor = [{"stage": i, "changed": s["changed"], "vchanged": s["vchanged"]}
-                for i, s in enumerate(steps[:n_roots]) if s["changed"] or s["vchanged"]]
+        n_roots = r["ok"]["tag"]["n_prefix"]
+        ctor = [{"stage": i, "changed": steps[j]["changed"], "vchanged": steps[j]["vchanged"]}
+                for i, j in enumerate(r["ok"]["tag"]["stage_at"]) if steps[j]["changed"] or steps[j]["vchanged"]]
         fresh = FreshEval(case["build"])
         out = []
         for st, s in zip(case["history"], steps[n_roots:]):
-            o = {"changed": [f"obj{i}" for i in s["changed"]] + [f"obj{i}.{k}" for i, k in s["vchanged"]]}
+            o = {"may_change": sorted({f"obj{i}" for i in s["changed"]} | {f"obj{i}" for i, k in s["vchanged"]})}
             v = s["value"]
             if st["op"] == "derive":
                 o["value"] = None
@@ -1361,8 +1422,9 @@ class C11(PropertyCheck):
 
     def _interpret(self, fresh, v, st):
         """symbolic value -> fingerprint of the same quantity read once on a freshly built equal object."""
-        if v["edits"] or v["at"]["edits"]:
-            return {"edited": v["edits"] + v["at"]["edits"]}
+        if v["dirty"]:
+            # computed from something an earlier operation edited in place: not a fresh-object value
+            return {"edited": True}
         return fresh.value(v["at"]["root"], v["at"]["path"], st)
 
     def compare(self, case, impl_obs, model_obs, cmp):
@@ -1370,11 +1432,21 @@ class C11(PropertyCheck):
             return f"model error {model_obs['err']}"
         if case["kind"] == "rng":
             return cmp.diff({"labels": impl_obs["labels"], "changed": impl_obs["changed"]}, model_obs)
-        a = {"ctor": [{"stage": c["stage"], "changed": c["changed"]} for c in impl_obs["ctor"]],
-             "steps": [{"value": s.get("value"), "changed": s["changed"]} for s in impl_obs["steps"]]}
-        b = {"ctor": [{"stage": c["stage"], "changed": c["changed"]} for c in model_obs["ctor"]],
-             "steps": model_obs["steps"]}
-        return cmp.diff(a, b)
+        d = cmp.diff([c["stage"] for c in impl_obs["ctor"]], [c["stage"] for c in model_obs["ctor"]], "$.ctor")
+        if d:
+            return d
+        for i, (si, sm) in enumerate(zip(impl_obs["steps"], model_obs["steps"])):
+            # the table's writes are may-writes (zeroing entries that are already zero changes no byte):
+            # every buffer the implementation changed must belong to an object the model says may change
+            extra = [t for t in si["owners"] if t not in sm["may_change"]]
+            if extra:
+                return f"$.steps[{i}].changed: impl changed {si['changed'][:4]} (owners {extra}); model allows {sm['may_change']}"
+            if isinstance(sm["value"], dict) and sm["value"].get("edited"):
+                continue  # downstream of an in-place edit: no fresh-object prediction to compare with
+            d = cmp.diff(si.get("value"), sm["value"], f"$.steps[{i}].value")
+            if d:
+                return d
+        return None
 
     # ------------------------------------------------------------------ oracle
     def oracle(self, case, obs):
@@ -1408,6 +1480,44 @@ class C11(PropertyCheck):
                                    f"constructed from its own contents reports {s['rebuilt']}")
         return True, ""
 
+    # ------------------------------------------------------------------ known findings
+    D9B_OPS = ("values_masked", "max_pixel_centre", "max_pixel_list_from", "interpolated_array_from",
+               "mapped_reconstructed_image_from", "magnification_via_interpolation_from",
+               "magnification_via_mesh_from")
+
+    def known_finding(self, case, obs):
+        """D9b: a MapperValued with a mesh_pixel_mask on which `values_masked` (or a quantity built on it) is
+        read.  Narrowing: the case must stop failing when exactly that defect is neutralised (the property
+        `values_masked` masking a copy), so any other violation in the same history is still reported."""
+        if case.get("kind") != "history":
+            return None
+        mv = case["build"].get("valued")
+        if not mv or not mv.get("pixel_mask"):
+            return None
+        ks = root_kinds(case["build"])
+        mvi = len(ks) - 1
+        if not any(st["obj"] == mvi and (st.get("key") or st.get("name")) in self.D9B_OPS
+                   for st in case["history"]):
+            return None
+        aa = load_autoarray()
+        orig = aa.MapperValued.__dict__["values_masked"]
+
+        def values_masked_copy(mv_self):
+            values = mv_self.values
+            if mv_self.mesh_pixel_mask is not None:
+                values = np.array(values)
+                values[mv_self.mesh_pixel_mask] = 0.0
+            return values
+
+        try:
+            aa.MapperValued.values_masked = property(values_masked_copy)
+            holds, _ = self.oracle(case, run_history(case))
+        except Exception:
+            holds = False
+        finally:
+            aa.MapperValued.values_masked = orig
+        return "D9b" if holds else None
+
     def nontrivial(self, case, obs):
         if case["history"]:
             return True
@@ -1416,8 +1526,8 @@ class C11(PropertyCheck):
 
     def shrink(self, case):
         hist = case["history"]
-        # drop a suffix, then single non-derive steps (derive steps define later object indexes)
-        for n in range(len(hist) - 1, 0, -1):
+        # shortest failing prefix first, then single non-derive steps (derive steps define later indexes)
+        for n in range(1, len(hist)):
             yield {**case, "history": hist[:n]}
         for i, st in enumerate(hist):
             if st["op"] != "derive":
